@@ -11,7 +11,7 @@ Each cycle must therefore pass through a function that
       that build the tree (the parser) is of kind (G).
 A cycle that is neither is reported with the functions on it and the call sites that close it."""
 from . import cast
-from .cast import children, walk, pos, callee_of, qt
+from .cast import children, walk, pos, callee_of, qt, dqt
 
 
 def _fid(idx, f):
@@ -323,6 +323,69 @@ def receiver_root(idx, f, call, tree_base=None):
     return root(obj)
 
 
+def child_argument_descent(idx, fu, site, fv, tree_base):
+    """A (mutually) recursive function that walks the tree by hand: at this call site every tree-node argument of the callee is a *child*
+    of a tree-node parameter of the caller (reached from it through at least one member getter, possibly via dynamic_cast / smart
+    pointer access / a local initialised that way).  One call = one level down, so the depth is bounded by the depth of the tree."""
+    import re
+    if tree_base is None or fu.body is None:
+        return False
+
+    def is_node_type(t, ctx):
+        for tn in re.findall(r'[A-Za-z_][\w:]*', t):
+            q = tn if tn in idx.records else idx._resolve_record_name(tn.split('::')[-1], ctx)
+            if q and idx.derives_from(q, tree_base):
+                return True
+        return False
+    node_params = [i for i, p_ in enumerate(fv.params) if is_node_type(qt(p_), fv.cls or fv.qname)]
+    if not node_params:
+        return False
+    args = call_args_(site)
+    inits = {d['id']: children(d)[-1] for d in walk(fu.body) if d.get('kind') == 'VarDecl' and children(d)}
+    params = {p_['id'] for p_ in fu.params if is_node_type(qt(p_), fu.cls or fu.qname)}
+
+    def chain(e, d=0, getters=0):
+        """Number of member getters between e and a tree-node parameter of the caller, or None."""
+        e = cast.strip(e)
+        k = e.get('kind')
+        if d > 14:
+            return None
+        if k in ('ImplicitCastExpr', 'ParenExpr', 'MaterializeTemporaryExpr', 'CXXBindTemporaryExpr', 'ExprWithCleanups') and children(e):
+            return chain(children(e)[0], d + 1, getters)
+        if k == 'CXXMemberCallExpr':
+            k2, n2, d2, o2 = callee_of(e)
+            if n2 in ('lookup', 'find', 'at') or o2 is None:
+                return None
+            smart = 'unique_ptr' in (qt(o2) + dqt(o2)) or 'shared_ptr' in (qt(o2) + dqt(o2))
+            return chain(o2, d + 1, getters + (0 if smart and n2 == 'get' else 1))
+        if k == 'CXXOperatorCallExpr':
+            n2 = callee_of(e)[1]
+            a = call_args_(e)
+            if n2 in ('operator->', 'operator*') and a:
+                return chain(a[0], d + 1, getters)
+            return None
+        if k == 'UnaryOperator' and e.get('opcode') in ('*', '&') and children(e):
+            return chain(children(e)[0], d + 1, getters)
+        if k in ('CXXDynamicCastExpr', 'CXXStaticCastExpr', 'CXXConstCastExpr') and children(e):
+            return chain(children(e)[0], d + 1, getters)
+        if k == 'MemberExpr' and children(e):
+            return chain(children(e)[0], d + 1, getters)
+        if k == 'DeclRefExpr':
+            r = e.get('referencedDecl') or {}
+            if r.get('id') in params:
+                return getters
+            if r.get('kind') == 'VarDecl' and r.get('id') in inits:
+                return chain(inits[r['id']], d + 1, getters)
+        return None
+    for i in node_params:
+        if i >= len(args):
+            return False
+        g = chain(args[i])
+        if g is None or g < 1:
+            return False
+    return True
+
+
 def call_args_(n):
     from .cast import call_args
     return call_args(n)
@@ -356,7 +419,9 @@ def decide_cycles(idx, cg, within, structural=(), tree_base=None):
             # an edge into a tree-descent method counts as descent only if every call site applies it to a node reached from the
             # caller's own object or parameters (a child); applying it to a node fetched from a table may revisit the same node
             if v not in structural:
-                return False
+                # a function that descends by hand: every call site passes a child of the caller's own node
+                sites_ = cg.edges.get(u, {}).get(v, [])
+                return bool(sites_) and all(child_argument_descent(idx, cg.nodes[u], site, cg.nodes[v], tree_base) for site in sites_)
             return all(receiver_root(idx, cg.nodes[u], site, tree_base) in ('self', 'param') for site in cg.edges.get(u, {}).get(v, []))
         # (1) a call that applies a tree-descent method to a node that is *not* reached from the caller's own node (fetched from a table,
         #     say) can revisit a node: such an edge on a cycle makes the recursion unbounded whatever else the cycle does
